@@ -24,16 +24,12 @@ then differs from the observed one at that line.
 
 A body may leave with an exception (quit_loop() / switch() inside a coroutine, or a bug).  The
 exception must come out of process(); the texts say nothing else about that call, so the coroutines
-that were still owed a step in it are excused *for that call*.  From then on the texts apply again:
-in the following call every runnable coroutine is owed exactly one step, and the coroutine that
-raised is over - it may be reported ACTIVE (it did not "return") and stay referenced only until the
-frame in which it would next have run; the oracle allows two completed process calls for that (the
-aborted call and its successor share one round of turns) and accepts either answer until then.
-What the unchanged code does in the call that follows an aborted one - it advances only the
-coroutines that were behind the raiser and skips everybody else that is runnable - is reported as
-the separate finding `skipped-after-raise` and tolerated for the rest of the scenario, so that the
-remaining clauses keep being checked; a coroutine that was owed a step and is skipped is a plain
-`missing-step`.
+that were still owed a step in it are excused *for that call* (it did not complete).  From then on
+the texts apply in full: in the very next call every runnable coroutine is owed exactly one step,
+in the order kept so far; the coroutine that raised is over — it reads TERMINATED and is released
+as soon as the aborted call has returned, and its promise stays empty.  (Until commit 79d5dfb the
+code skipped coroutines in the call after an aborted one: D31, corpus/C08/raise_mid_order.scn; that
+is reported as `skipped-after-raise`, an ordinary violation.)
 """
 from harness.models.coro import parse, enc
 
@@ -52,9 +48,7 @@ class Spec:
         self.prev_order = []
         self.out = []
         self.reasons = {}                           # index in self.out -> reason
-        self.findings = []                          # clauses violated but followed (see module doc)
-        self.crashed = {}                           # g -> completed calls left before it must be gone
-        self.owed = None                            # after an aborted call: who was still owed a step
+        self.after_abort = False                    # the previous process call was aborted by a body
         # frame-local
         self.in_frame = False
         self.must, self.may, self.ran, self.fresh, self.stayed = set(), set(), set(), set(), []
@@ -108,7 +102,6 @@ class Spec:
         else:
             self.linger[h] = ['frames', 1]
         self.mode[h] = None
-        self.crashed.pop(h, None)
         self.must.discard(h)
         self.may.discard(h)
         if h in self.prev_order:
@@ -133,7 +126,6 @@ class Spec:
     def finish(self, g, value, ran_code):
         self.mode[g] = None
         self.done[g] = True
-        self.crashed.pop(g, None)
         self.linger.pop(g, None)                # finished: released at once
         self.must.discard(g)
         self.may.discard(g)
@@ -161,11 +153,8 @@ class Spec:
             self.out.append(f'act {g} {i} {a} {h} {r}')
         killed_self = self.linger.get(g) == ['self']
         if kind == 'raise':
-            self.done[g] = True                 # the generator object is over, nothing was returned
-            if killed_self:
-                self.linger[g] = ['frames', 2]
-            elif self.mode[g] == 'run':
-                self.crashed[g] = 2
+            # the coroutine is over: TERMINATED, released at once, nothing stored in its promise
+            self.finish(g, None, False)
             return val
         if kind == 'ret':
             self.finish(g, val, True)
@@ -215,35 +204,31 @@ class Spec:
                 if l[1] <= 0:
                     self.linger[g] = ['frames', 1]
         self.must = {g for g in range(self.n) if self.mode[g] == 'run'}
-        # who must be advanced in this call: everybody runnable - except that right after a call
-        # that a body aborted only those still owed a step then are insisted on (module doc)
-        strict = set(self.must) if self.owed is None else (self.owed & self.must)
         order = list(self.prev_order)
         exc = None
         for g, i, acts in steps:
             ok = self.is_gen(g) and self.eligible(g) and not self.done[g] \
                 and self.pc[g] < len(self.scripts[g])
             reason = None
-            if not ok:
+            if exc is not None:
+                reason = 'ran-after-raise'          # the exception must leave process() at once
+            elif not ok:
                 reason = self.why_not(g)
             elif i != self.pc[g]:
                 reason = 'wrong-step-index'
-            elif g in order and any(h in self.must and h in strict and h not in self.ran
-                                    and self.runs_code(h) for h in order[:order.index(g)]):
+            elif g in order and any(h in self.must and h not in self.ran and self.runs_code(h)
+                                    for h in order[:order.index(g)]):
                 reason = 'order-changed'
             if reason:
                 self.reasons[len(self.out)] = reason
                 break
-            e = self.run_step(g, acts)
-            if e is not None and exc is None:
-                exc = e                             # leaves process(); whoever still runs, runs
+            exc = self.run_step(g, acts)
         impl_states = next((o.split()[1].split(',') for o in after if o.startswith('states ')), None)
 
         def impl_says_gone(g):
             return bool(impl_states) and g < len(impl_states) and impl_states[g] == 'T'
         # whoever is still owed a step (none, when the implementation is right)
         pending = [g for g in order if g in self.must] + sorted(self.must - set(order))
-        skipped = []
         for g in pending:
             if not (g in self.must and self.mode[g] == 'run' and g not in self.ran):
                 continue
@@ -254,48 +239,29 @@ class Spec:
                     self.ran.add(g)
                     self.finish(g, None, False)
                 continue
-            if g not in strict:
-                if g in self.crashed and not impl_says_gone(g):
-                    continue                        # over, may linger (module doc)
-                # runnable, owed a step by the text, skipped by the unchanged code: finding
-                if self.runs_code(g) or not impl_says_gone(g):
-                    skipped.append(g)
-                    continue
             if self.runs_code(g):
-                self.reasons.setdefault(len(self.out), 'missing-step')
+                self.reasons.setdefault(len(self.out),
+                                        'skipped-after-raise' if self.after_abort else 'missing-step')
                 self.run_step(g, [])
-            elif g in self.crashed and not impl_says_gone(g):
-                pass                                # over, may linger (module doc)
             else:
                 self.ran.add(g)
                 self.finish(g, None, False)         # exhausted generator: finishes silently
-        if skipped:
-            self.findings.append(
-                ('skipped-after-raise', 'in the process call after one that a body left with an '
-                 'exception, runnable coroutine(s) %s were not advanced' % skipped))
         # exhausted generators started during this call: follow the implementation
         for g in sorted(self.may):
             if self.mode[g] == 'run' and not self.runs_code(g) and impl_says_gone(g):
                 self.finish(g, None, False)
         if exc is not None:
-            self.owed = {g for g in self.must if self.mode[g] == 'run' and g not in self.ran
-                         and g in strict}
-            self.prev_order = [g for g in order if self.mode[g] == 'run' and g not in self.fresh
-                               and g not in self.crashed]
+            # not a completed frame: order and release allowances stand as they were
+            self.after_abort = True
+            self.prev_order = [g for g in order if self.mode[g] == 'run' and g not in self.fresh]
         else:
-            after_abort = self.owed is not None
-            self.owed = None
+            self.after_abort = False
             self.prev_order = [g for g in self.stayed if self.mode[g] == 'run' and g not in self.fresh]
             for g, l in list(self.linger.items()):
-                # (the call after an aborted one completes the aborted round of turns: module doc)
-                if l[0] == 'frames' and not after_abort:
+                if l[0] == 'frames':
                     l[1] -= 1
                     if l[1] <= 0:
                         del self.linger[g]
-            for g in list(self.crashed):
-                self.crashed[g] -= 1
-                if self.crashed[g] <= 0 and self.mode[g] == 'run':
-                    self.finish(g, None, False)     # by now it must be gone
         self.in_frame = False
         self.must, self.may = set(), set()
         return 'ok' if exc is None else 'raised ' + exc
@@ -325,11 +291,6 @@ class Spec:
             else:
                 raise ValueError(t)
             self.out.append('res ' + r)
-            # a coroutine whose body raised may or may not be gone yet: the implementation decides
-            impl_st = next((o.split()[1].split(',') for o in nxt if o.startswith('states ')), None)
-            for g in list(self.crashed):
-                if self.mode[g] == 'run' and impl_st and g < len(impl_st) and impl_st[g] == 'T':
-                    self.finish(g, None, False)
             st = ','.join(self.state(g) for g in range(self.n)) or '-'
             self.out.append('states ' + st)
             self.out.append('pstates ' + st)
@@ -349,19 +310,15 @@ class Spec:
 
 def expected(lines, obs):
     sp = Spec(lines, obs)
-    return sp.run(), sp.reasons, sp.findings
+    return sp.run(), sp.reasons
 
 
 def compare(pid, lines, obs, project):
     """First disagreement between the required and the observed stream -> [violation]."""
     if obs == ['hang']:
         return [{'sig': f'{pid}:hang', 'what': 'the implementation did not return'}]
-    exp, reasons, findings = expected(lines, obs)
-    found, seen = [], set()
-    for kind, what in findings:
-        if kind not in seen:
-            seen.add(kind)
-            found.append({'sig': f'{pid}:{kind}', 'what': what})
+    exp, reasons = expected(lines, obs)
+    found = []
     keep_e = [(k, o) for k, o in enumerate(exp) if project([o])]
     e = [o for _, o in keep_e]
     a = project(obs)
